@@ -133,9 +133,11 @@ func (g *gen) genSendRaw() {
 	mal := ""
 	if g.r.Chance(2, 5) {
 		mal = []string{"nodata", "srcwrong", "srceqdst", "seq0"}[g.r.Intn(4)]
+	} else if g.r.Chance(1, 4) {
+		mal = "junkcall" // well-formed for SendPacket; the destination callback FAILS on it
 	}
 	g.add(Op{K: "send_raw", Chain: c, Dst: dst, SeqDelta: delta, Mal: mal, Commit: g.r.Chance(6, 10)})
-	if dst != -1 && delta == 0 && mal == "" {
+	if dst != -1 && delta == 0 && (mal == "" || mal == "junkcall") {
 		g.pkts = append(g.pkts, gPkt{src: c, dst: dst, ackIdx: -1})
 	}
 }
@@ -292,10 +294,7 @@ func (g *gen) genOp() {
 		g.genRecv()
 	case "recv_tss":
 		c := g.r.Intn(nChains)
-		variant := "transfer"
-		if g.r.Bool() {
-			variant = "junk"
-		}
+		variant := []string{"transfer", "junk", "junkcall"}[pick(g.r, []int{40, 35, 25})]
 		op := Op{K: "recv_tss", Chain: c, Seq: uint64(1 + g.r.Intn(4)), DstSelf: !g.r.Chance(15, 100),
 			Relayer: pick(g.r, []int{70, 15, 15}), Variant: variant, Commit: g.r.Chance(7, 10)}
 		g.add(op)
